@@ -989,6 +989,9 @@ func conv(p *pathState, t_dst, t_src types.Type, x value) value {
 			// To at least preserve type-safety, we'll
 			// just return the zero value of the
 			// destination type.
+			if p, ok := x.(unsafe.Pointer); ok {
+				return (*value)(p) // every interpreter pointer is a *value
+			}
 			return zero(t_dst)
 		}
 
